@@ -271,7 +271,7 @@ def run_progress(case):
     rng = np.random.default_rng(case["sub"])
     for rep in range(32):
         n = int(rng.choice([0, 1, 2, 3, 9, 10, 11, 37, 120]))
-        ikind = ["list", "tuple", "range", "ndarray", "generator", "source", "dict", "iterator"][int(rng.integers(0, 8))]
+        ikind = ["list", "tuple", "range", "ndarray", "generator", "source", "dict", "iterator", "source", "source"][int(rng.integers(0, 10))]
         items = [Obj(i) for i in range(n)]
         src = None
         if ikind == "list":
@@ -316,7 +316,7 @@ def run_progress(case):
         if rng.random() < .6:
             kw["mininterval"] = [0, 0.5, 1e-9][int(rng.integers(0, 3))]
         if rng.random() < .5:
-            kw["miniters"] = [1, 3, 1000][int(rng.integers(0, 3))]
+            kw["miniters"] = [1, 2, 3, 5, 1000][int(rng.integers(0, 5))]
         if rng.random() < .4:
             kw["n_bars"] = [1, 5, 20, 80][int(rng.integers(0, 4))]
         out = io.StringIO()
